@@ -541,7 +541,7 @@ def int_try_from(ex, st, fr, name, args, dty):
     return out
 
 
-@model(r'core::char::methods::<impl char>::(is_ascii_hexdigit|is_ascii_digit|is_ascii_lowercase|is_ascii_uppercase|is_ascii_alphabetic|is_ascii_alphanumeric|is_ascii)$')
+@model(r'(^|::)char::methods::<impl char>::(is_ascii_hexdigit|is_ascii_digit|is_ascii_lowercase|is_ascii_uppercase|is_ascii_alphabetic|is_ascii_alphanumeric|is_ascii)$')
 def char_class(ex, st, fr, name, args, dty):
     which = strip_generics(name).split('::')[-1]
     v = args[0]
